@@ -25,6 +25,9 @@ use tokio::io::{AsyncRead, AsyncWrite};
 use crate::verif_seam::tokio_net::{TcpListener, TcpStream, ToSocketAddrs};
 #[cfg(not(repe_verif))]
 use tokio::net::{TcpListener, TcpStream, ToSocketAddrs};
+#[cfg(repe_verif)]
+use crate::verif_seam::tokio_mpsc as mpsc;
+#[cfg(not(repe_verif))]
 use tokio::sync::mpsc;
 use tokio::sync::mpsc::error::TrySendError;
 use tokio::sync::{Semaphore, oneshot};
@@ -1652,8 +1655,6 @@ async fn spawn_off_reader(
             stamp_response_query(&mut response, Cow::Owned(request.query));
             // Best-effort: the writer may already be gone if the
             // connection closed while this handler ran.
-            #[cfg(repe_verif)]
-            crate::verif_seam::block_until(|| outbound_tx.capacity() > 0 || outbound_tx.is_closed());
             let _ = outbound_tx.blocking_send(response);
         }
     });
